@@ -274,6 +274,10 @@ func c11Feed(items []c11Item, prefilled bool) (<-chan tree.Trees, func() bool) {
 		if it.err != nil {
 			return tree.Trees{Tree: nil, Id: i, Err: it.err}
 		}
+		if i%3 == 1 {
+			// an object with a past (indexed under another tip name, then renamed): see usedObject
+			return tree.Trees{Tree: usedObject(rand.New(rand.NewSource(int64(i)*7919+int64(len(it.text)))), it.text), Id: i}
+		}
 		return tree.Trees{Tree: mustParse(it.text), Id: i}
 	}
 	if prefilled {
